@@ -264,7 +264,42 @@ def run(repo: Repo, chk: Check, thorough: bool = False) -> None:
     chk.ob('R02.4', f'{SYS}.addObject :: registered under the qualified name, duplicates handled', ok and bool(dup),
            'allobjects.setdefault(obj.fullName(), obj) then handleDuplicate when taken' if ok and dup else
            'addObject no longer registers under fullName() / no longer detects duplicates', ao.loc)
-    chk.require('R02.4', 3)
+    # modules sit only in packages: the re-export move must not put a Module below a plain module, below itself or below one of its own
+    # descendants (the last two make fullName() recurse for ever / fail the processing-state assertion: the run aborts)
+    hr = repo.func('pydoctor.astbuilder.ModuleVistor._handleReExport')
+    cfgr = CFG(hr)
+    rcalls = [c for c in calls_in(hr) if call_name(c) == 'reparent' and isinstance(c.func, ast.Attribute)]
+    if not rcalls:
+        raise AnalysisError('R02.4: reparent(...) is no longer called from _handleReExport')
+
+    def _package_check(g: Func) -> bool:
+        return any(isinstance(c, ast.Call) and call_name(c) == 'isinstance' and len(c.args) == 2 and norm(c.args[1]).endswith('Package') for c in calls_in(g))
+    for c in rcalls:
+        obv = norm(c.func.value)   # type: ignore[attr-defined]
+
+        def safe(e: ast.AST, pol: bool) -> bool:
+            if isinstance(e, ast.Call) and call_name(e) == 'isinstance' and len(e.args) == 2 and norm(e.args[0]) == obv and norm(e.args[1]).endswith('Module'):
+                return not pol
+            if isinstance(e, ast.Call) and any(norm(a) == obv for a in e.args):
+                cal, _how = repo.callees(e, hr)
+                if cal and all(_package_check(g) for g in cal):
+                    return pol
+            if isinstance(e, ast.UnaryOp) and isinstance(e.op, ast.Not):
+                return safe(e.operand, not pol)
+            if isinstance(e, ast.BoolOp):
+                if isinstance(e.op, ast.And):
+                    return any(safe(v, True) for v in e.values) if pol else all(safe(v, False) for v in e.values)
+                return all(safe(v, True) for v in e.values) if pol else any(safe(v, False) for v in e.values)
+            return False
+        safe_edges = [(nid, id(t), k) for nid, edges in cfgr.succ.items() for (t, l, k) in edges if l is not None and safe(l[0], l[1])]
+        reach = cfgr.reachable(cfgr.ENTRY, avoid_edges=safe_edges, no_exc=True)
+        okm = bool(safe_edges) and id(cfgr.stmt_of(c)) not in reach
+        chk.ob('R02.4', 'astbuilder.ModuleVistor._handleReExport :: a module is only moved into a package that can hold it', okm,
+               f'`{norm(c)[:40]}` is reached only for non-modules or after the package / ancestry check' if okm else
+               f'`{norm(c)[:40]}` also moves Module objects, unchecked: `from pkg import sub` + `__all__ = ["sub"]` in a plain module puts a module below a '
+               'module; re-exporting the current package from one of its submodules makes it its own ancestor - fullName() recurses until the run aborts',
+               repo.loc(hr.mod, c))
+    chk.require('R02.4', 4)
 
 
 def _values(f: Func, name: str) -> List[ast.AST]:
